@@ -82,15 +82,19 @@ def pack_trr(frames, endian, dbl):
     w = 8 if dbl else 4
     out = b""
     ver = b"GMX_trn_file"
-    for step, (box, x, v) in enumerate(frames):
+    for step, fr in enumerate(frames):
+        box, x, v = fr[0], fr[1], fr[2]
+        f = fr[3] if len(fr) > 3 else None
         n = len(x) // 3
         out += struct.pack(endian + "i", 1993) + struct.pack(endian + "2i", len(ver) + 1, len(ver)) + ver
-        out += struct.pack(endian + "13i", 0, 0, 9 * w, 0, 0, 0, 0, len(x) * w, (len(v) * w if v else 0), 0, n, step, 0)
+        out += struct.pack(endian + "13i", 0, 0, 9 * w, 0, 0, 0, 0, len(x) * w, (len(v) * w if v else 0), (len(f) * w if f else 0), n, step, 0)
         out += struct.pack(endian + "2" + r, float(step), 0.0)
         out += struct.pack(endian + "9" + r, *box)
         out += struct.pack(endian + str(len(x)) + r, *x)
         if v:
             out += struct.pack(endian + str(len(v)) + r, *v)
+        if f:
+            out += struct.pack(endian + str(len(f)) + r, *f)
     return out
 
 
